@@ -2,7 +2,7 @@ SPECIFICATION Spec
 CONSTANTS
   MaxLen = 6
   Kinds <- AllKinds
-  Outcomes <- AllSix
+  Outcomes <- AllSeven
   Tags <- BothTags
   MayToggle = TRUE
   MayAbort = TRUE
